@@ -70,8 +70,10 @@ class NxProxy:
 
     def to_networkx_graph(self, data, *a, **k):
         if isinstance(data, SymGraph):
-            return data.to_real()
+            return data
         if isinstance(data, np.ndarray) and data.dtype == object:
+            if has_sym(data):
+                return SymGraph(wrap(data))  # stays symbolic; SymGraph.to_real() forks when a real graph is needed
             data = concretize_matrix(data)
         return nx.to_networkx_graph(data, *a, **k)
 
